@@ -63,7 +63,7 @@ theorem accepts_union_inv (env : Env) (cands : List Spec) (f : Flags) (hf : f.fr
 /-! ### Candidate kinds -/
 
 def leafK : Spec.Kind → Bool
-  | .any | .enum | .union => false
+  | .any | .enum | .union | .callable => false
   | _ => true
 
 theorem leafTy_isSome (c : Spec) : (leafTy c).isSome = leafK c.kind := by
